@@ -81,11 +81,18 @@ class Gen:
         if kind == "abs":
             return f"abs({a})"
         if kind == "sign":
-            return f"sign({a}, {b})"
+            # the 2nd argument never contains an intrinsic call or a product: no zero whose sign matters
+            return f"sign({a}, {self.plain_expr()})"
         if kind in ("min", "max"):
             extra = [self.scalar_expr(depth + 1, None, elements) for _ in range(r.choice([0, 0, 1, 2]))]
             return f"{kind}(" + ", ".join([a, b] + extra) + ")"
         return f"({a} {kind} {b})"
+
+    def plain_expr(self, depth=0):
+        r = self.rng
+        if depth >= 1 or r.random() < 0.5:
+            return self.scalar_leaf()
+        return f"({self.plain_expr(depth + 1)} {r.choice('+-')} {self.plain_expr(depth + 1)})"
 
     def array_expr(self, cnt, st, lhs=None, depth=0, first=True, flavour="safe"):
         """elementwise expression whose sections have `cnt` elements; the left-most leaf is a section.
@@ -312,7 +319,8 @@ def case_red(g):
     if flavour == "ctx":
         rhs = r.choice([f"1.0 + {call} * 2.0", f"abs({call}) - y", f"max({call}, 3.0)"])
     elif flavour == "increment":
-        rhs = r.choice([f"{tgt} + {call}", f"{call} * {tgt}", call.replace(")", f" * {tgt})", 1) if tsym in R.SCALARS else f"{tgt} - {call}"])
+        inner = f"{kind}(" + ", ".join([f"({expr}) * {tgt}"] + args[1:]) + ")"       # the target inside the reduced expression
+        rhs = r.choice([f"{tgt} + {call}", f"{call} * {tgt}", inner if tsym in R.SCALARS else f"{tgt} - {call}"])
     elif flavour == "two":
         other = f"{kind}({g.section(r.choice(['a', 'b', 'c']), 3, 1)})"
         if r.random() < 0.5:
@@ -563,7 +571,10 @@ def psy_batch(batch, params, dropped=None):
 
 
 def make_entry(case, params, ap):
-    entry = {"case": case, "params": params, "refused": ap.refused, "cmp": None, "line": None, "real": None}
+    entry = {"case": case, "params": params, "refused": ap.refused, "cmp": None, "line": None, "real": None,
+             "ood": R.outside_domain(ap.orig_stmt, case["target"])}
+    if entry["ood"]:
+        return entry
     names = minif.Names()
     try:
         line, cmp = model_line(case, ap, names)
@@ -669,6 +680,9 @@ def run(chk):
     reported = set()
     for e, verdict in done:
         case = e["case"]
+        if e["ood"]:
+            dist["outside the domain: " + e["ood"]] = dist.get("outside the domain: " + e["ood"], 0) + 1
+            continue
         key = case["kind"] + ":" + case["flavour"] + (":refused" if e["refused"] else ":accepted")
         dist[key] = dist.get(key, 0) + 1
         agreed, ans = True, None
@@ -705,6 +719,11 @@ def run(chk):
 
 def replay_case(case, params, quiet=False):
     src, ap = evaluate(case, params)
+    ood = R.outside_domain(ap.orig_stmt, case["target"])
+    if ood:
+        if not quiet:
+            print("statement:", case["stmts"], "\noutside the property's domain:", ood, "\nproperty: not applicable")
+        return 0
     if ap.refused:
         if not quiet:
             print("statement:", case["stmts"], "\ntransformation refused:", ap.refused[:300], "\nproperty: holds (refused)")
